@@ -13,6 +13,20 @@ OBLIGATIONS = [
      "statement": "a non-incomplete answer never changes when more bytes arrive (RSV-free buffers)"},
     {"id": "C18_W3_generic", "theorem": "Iora.Framing.segmentation_independent", "kind": "proved",
      "statement": "greedy framing with a stable parser yields the same frames for every segmentation of a good stream"},
+    {"id": "C18_W3_frames", "theorem": "Iora.C18.W3_frames", "kind": "proved",
+     "statement": "every segmentation of a stream of valid frames yields exactly the serialised frames, nothing left over"},
+    {"id": "C18_W3_server", "theorem": "Iora.C18.W3_server_segmentation_independent", "kind": "proved",
+     "statement": "server events are the same for any two segmentations of a valid close-last stream"},
+    {"id": "C18_W3_server_fn", "theorem": "Iora.C18.W3_server_events_of_frames", "kind": "proved",
+     "statement": "server events are a function of the frame list (handler folded over frames)"},
+    {"id": "C18_W4_reassembly", "theorem": "Iora.C18.W4_reassembly", "kind": "proved",
+     "statement": "fragments joined in order, controls between fragments harmless, ping->pong same payload, text only if UTF-8, delivered once"},
+    {"id": "C18_W4_utf8", "theorem": "Iora.C18.W4_utf8", "kind": "proved",
+     "statement": "isValidUtf8 accepts exactly Unicode Table 3-7 well-formed UTF-8"},
+    {"id": "C18_W5", "theorem": "Iora.C18.W5_no_data_after_close", "kind": "proved",
+     "statement": "for every history of app sends and reads, no data frame is sent after a close frame (server)"},
+    {"id": "C18_W6c", "theorem": "Iora.C18.W6_server_buffer_bounded", "kind": "proved",
+     "statement": "for every history and arbitrary bytes the session retains < 14 + max unparsed bytes"},
     {"id": "C18_W6a", "theorem": "Iora.C18.W6_frame_bounds", "kind": "proved",
      "statement": "arbitrary bytes: consumed <= size, allocation <= available and <= max"},
     {"id": "C18_W6b", "theorem": "Iora.C18.W6_incomplete_short", "kind": "proved",
@@ -406,7 +420,7 @@ def run(ctx: Ctx):
     if ok_build:
         ctx.audit(MODULES, OBLIGATIONS)
         if not quick:
-            ctx.leanchecker(MODULES + ["IoraModel.Lemmas.WsFrame", "IoraModel.Model.WsFrame", "IoraModel.Common.Framing"])
+            ctx.leanchecker(MODULES + ["IoraModel.Lemmas.WsFrame", "IoraModel.Lemmas.WsServer", "IoraModel.Lemmas.WsStream", "IoraModel.Lemmas.Utf8", "IoraModel.Model.WsFrame", "IoraModel.Model.WsServer", "IoraModel.Common.Framing"])
     else:
         ctx.cov["obligations"] = len(OBLIGATIONS)
     hb = ctx.build_harness("harness/c18_ws.cpp", sanitize=True)
@@ -450,9 +464,8 @@ def run(ctx: Ctx):
         ctx.extra["segmentations_compared"] = nseg
     ctx.extra["input_distribution"] = dist
     ctx.extra["repo_tree_sha"] = ctx.repo_tree_sha(ANCHOR_FILES)
-    ctx.extra["not_proved"] = ["W3 lifted to server events (event-level independence is validated by lockstep over all single cuts, not yet a theorem)",
-                               "W4 isValidUtf8 <-> RFC 3629 (differentially checked against Python's strict decoder)", "W5 as a theorem",
-                               "client-side reassembly (websocket_client.hpp) is not yet modelled"]
+    ctx.extra["not_proved"] = ["client-side reassembly and close handshake (websocket_client.hpp) are not yet modelled; the client shares the frame codec and UTF-8 validator theorems",
+                               "W5 under true concurrency: the theorem is over sequences of the _wsMutex critical sections (sendClose sets the flag inside and sends outside the lock; modelled as one step, see assumptions)"]
     ctx.assumptions += ["single I/O thread per session (the server's per-session state is only touched under _wsMutex; concurrent interleavings of application sends are modelled as sequences of the locked sections)",
                         "the fake engine records bytes handed to Transport::sendAsync; delivery of those bytes is C01"]
     return ctx.finish(level="proof", rule="a case = one op list (codec op, or one segmentation of one generated frame stream fed to a fresh real WebSocketServer session); "
